@@ -1,11 +1,168 @@
 import Driver.Wire
+import Driver.KCodec
+import Sio.Model.Server
 open Lean (Json)
 namespace Sio.KServer
-open Sio.Wire
+open Sio.Wire Sio.Server Sio.Rooms
 
-/-- stub: replaced by the kernel's line-protocol handler -/
-def step (_ : Unit) (_ : Json) : Except String (Unit × Json) := throw "kernel not implemented"
+structure DState where
+  cfg : Cfg
+  srv : Srv
 
-def main : IO Unit := lineLoop () step
+def defaultCfg : Cfg :=
+  { alwaysConnect := false, served := some [['/']], asyncHandlers := false,
+    reg := ⟨fun _ _ => false, fun _ => false, fun _ => false, fun _ _ => false⟩,
+    script := ⟨fun _ => .accept, fun _ => .ret .none, fun _ => .ok⟩ }
+
+def strListOfJson (j : Json) : Except String (List Str) := do
+  let a ← j.getArr?
+  a.toList.mapM strOfJson
+
+def connResOfJson (j : Json) : Except String ConnRes :=
+  match j with
+  | Json.str "accept" => pure .accept
+  | Json.str "false" => pure .retFalse
+  | Json.str "raise" => pure .raise
+  | _ => do
+    let a ← (← j.getObjVal? "refuse").getArr?
+    let xs ← a.toList.mapM jOfJson
+    pure (.refuse xs)
+
+def evResOfJson (j : Json) : Except String EvRes :=
+  match j with
+  | Json.str "raise" => pure .raise
+  | _ => do let d ← dataOfJson (← j.getObjVal? "ret"); pure (.ret d)
+
+def discResOfJson (j : Json) : Except String DiscRes :=
+  match j with
+  | Json.str "raise" => pure .raise
+  | _ => pure .ok
+
+def cfgOfJson (j : Json) : Except String Cfg := do
+  let ac ← (← j.getObjVal? "alwaysConnect").getBool?
+  let ah ← (← j.getObjVal? "asyncHandlers").getBool?
+  let servedJ ← j.getObjVal? "served"
+  let served ← (if servedJ.isNull then pure none else do let l ← strListOfJson servedJ; pure (some l))
+  let fnA ← (← j.getObjVal? "fn").getArr?
+  let fns ← fnA.toList.mapM (fun e => do
+    let l ← strListOfJson e
+    match l with
+    | [ns, ev] => pure (ns, ev)
+    | _ => throw "bad fn entry")
+  let clsA ← (← j.getObjVal? "cls").getArr?
+  let clss ← clsA.toList.mapM (fun e => do
+    let p ← e.getArr?
+    match p.toList with
+    | [ns, ms] => do let n ← strOfJson ns; let m ← strListOfJson ms; pure (n, m)
+    | _ => throw "bad cls entry")
+  let oc ← (← (← j.getObjVal? "onConnect").getArr?).toList.mapM connResOfJson
+  let oe ← (← (← j.getObjVal? "onEvent").getArr?).toList.mapM evResOfJson
+  let od ← (← (← j.getObjVal? "onDisconnect").getArr?).toList.mapM discResOfJson
+  let reg : Registry :=
+    { fn := fun ns ev => fns.contains (ns, ev),
+      fnNs := fun ns => fns.any (fun p => p.1 = ns),
+      cls := fun ns => clss.any (fun p => p.1 = ns),
+      clsMethod := fun ns m => clss.any (fun p => p.1 = ns ∧ p.2.contains m) }
+  pure { alwaysConnect := ac, served := served, asyncHandlers := ah, reg := reg,
+         script := ⟨fun n => oc.getD n .accept, fun n => oe.getD n (.ret .none), fun n => od.getD n .ok⟩ }
+
+def targetOfJson (j : Json) : Except String Target :=
+  if j.isNull then pure .all
+  else match j.getObjVal? "many" with
+    | .ok v => do let l ← strListOfJson v; pure (.many l)
+    | .error _ => do let r ← strOfJson (← j.getObjVal? "one"); pure (.one r)
+
+def slotToJson : Slot → Json
+  | .fn ns ev => Json.mkObj [("fn", Json.arr #[strToJson ns, strToJson ev])]
+  | .cls ns m => Json.mkObj [("cls", Json.arr #[strToJson ns, strToJson m])]
+
+def outToJson : Out → Json
+  | .send t p =>
+    let (text, atts) := encode J.dumps p
+    Json.mkObj [("send", strToJson t), ("text", strToJson text),
+      ("atts", Json.arr ((atts.getD []).map (fun b => Json.str (bytesToHex b))).toArray)]
+  | .invoke slot args => Json.mkObj [("invoke", slotToJson slot), ("args", Json.arr (args.map jToJson).toArray)]
+  | .callback n args => Json.mkObj [("callback", Json.num n), ("args", Json.arr (args.map jToJson).toArray)]
+  | .raised e => Json.mkObj [("raised", Json.str e.name)]
+  | .result j => Json.mkObj [("result", jToJson j)]
+  | .timeout => Json.mkObj [("timeout", Json.bool true)]
+
+abbrev DecTable := List (Str × Except Err (Packet × Nat))
+
+/-- Parses one input line; text frames are decoded eagerly by the K1 model with the tables the
+    line carries, and remembered so that `step`'s decoder parameter answers for exactly them. -/
+partial def inputOfJson (j : Json) : Except String (Input × DecTable) := do
+  let op ← (← j.getObjVal? "op").getStr?
+  let str (k : String) : Except String Str := do strOfJson (← j.getObjVal? k)
+  if op == "open" then pure (.eioConnect (← str "t"), [])
+  else if op == "frame" then
+    let t ← str "t"
+    let text ← str "text"
+    let cls ← clsOfJson (← j.getObjVal? "cls")
+    let loads ← KCodec.loadsOfJson (← j.getObjVal? "loads")
+    pure (.frame t (.str text), [(text, decode cls loads text)])
+  else if op == "frameval" then
+    let t ← str "t"
+    let v ← jOfJson (← j.getObjVal? "v")
+    pure (.frame t v, [])
+  else if op == "lost" then pure (.eioLost (← str "t") (← str "reason"), [])
+  else if op == "emit" then
+    let ev ← str "ev"
+    let d ← dataOfJson (← j.getObjVal? "data")
+    let ns ← str "ns"
+    let to ← targetOfJson (← j.getObjVal? "to")
+    let skip ← strListOfJson (← j.getObjVal? "skip")
+    let cbJ ← j.getObjVal? "cb"
+    let cb ← (if cbJ.isNull then pure none else do let n ← cbJ.getNat?; pure (some n))
+    pure (.emit ev d ns to skip cb, [])
+  else if op == "call" then
+    let ev ← str "ev"
+    let d ← dataOfJson (← j.getObjVal? "data")
+    let ns ← str "ns"
+    let sid ← str "sid"
+    let during ← (← j.getObjVal? "during").getArr?
+    let parsed ← during.toList.mapM inputOfJson
+    pure (.call ev d ns sid (parsed.map (·.1)), parsed.flatMap (·.2))
+  else if op == "disconnect" then pure (.apiDisconnect (← str "sid") (← str "ns"), [])
+  else if op == "enter" then pure (.enterRoom (← str "sid") (← str "ns") (← str "room"), [])
+  else if op == "leave" then pure (.leaveRoom (← str "sid") (← str "ns") (← str "room"), [])
+  else if op == "close" then pure (.closeRoom (← str "ns") (← str "room"), [])
+  else if op == "rooms" then pure (.rooms (← str "sid") (← str "ns"), [])
+  else if op == "get_session" then pure (.getSession (← str "sid") (← str "ns"), [])
+  else if op == "save_session" then
+    pure (.saveSession (← str "sid") (← str "ns") (← jOfJson (← j.getObjVal? "v")), [])
+  else if op == "session_block" then
+    pure (.sessionBlock (← str "sid") (← str "ns") (← str "k") (← jOfJson (← j.getObjVal? "v")), [])
+  else if op == "settle" then pure (.settle, [])
+  else throw s!"unknown op {op}"
+
+def snapshot (s : Srv) : Json :=
+  Json.mkObj [
+    ("rooms", Json.arr (s.rooms.map (fun e => Json.arr #[strToJson e.ns, optStrToJson e.room, strToJson e.sid, strToJson e.eio])).toArray),
+    ("pending", Json.num s.pending.length), ("cbs", Json.num s.cbs.length), ("ctr", Json.num s.ctr.length),
+    ("environ", Json.num s.environ.length), ("binbuf", Json.num s.binbuf.length),
+    ("sess", Json.num s.sess.length), ("socks", Json.num s.socks.length), ("bg", Json.num s.bg.length)]
+
+def step (st : DState) (j : Json) : Except String (DState × Json) := do
+  match j.getObjVal? "cfg" with
+  | .ok c =>
+    let cfg ← cfgOfJson c
+    pure ({ cfg := cfg, srv := {} }, Json.mkObj [("ok", Json.bool true)])
+  | .error _ =>
+    let op ← (← j.getObjVal? "op").getStr?
+    if op == "dechdr" then
+      let (_, r) ← KCodec.step () j
+      pure (st, r)
+    else if op == "snapshot" then pure (st, snapshot st.srv)
+    else
+      let (inp, table) ← inputOfJson j
+      let dec : Str → Except Err (Packet × Nat) := fun s =>
+        match table.find? (fun p => p.1 == s) with
+        | some p => p.2
+        | none => .error .other
+      let (srv, outs) := Server.step dec st.cfg st.srv inp
+      pure ({ st with srv := srv }, Json.mkObj [("outs", Json.arr (outs.map outToJson).toArray)])
+
+def main : IO Unit := lineLoop { cfg := defaultCfg, srv := {} } step
 
 end Sio.KServer
